@@ -6,11 +6,12 @@
 import sys, os, subprocess, json, shutil, glob, re
 pid, X = sys.argv[1], sys.argv[2]
 checks = sys.argv[3:] or [pid]
-seed = f'/tmp/seed-{pid}'
+rnd = os.environ.get('SEED_ROUND', '')
+seed = f'/tmp/seed{rnd}-{pid}'
 patch = f'{seed}/patch{X}.diff'
 demos = glob.glob(f'{seed}/demo{X}*')
 env = dict(os.environ, GOFLAGS='-mod=mod', GOPROXY='off', GOSUMDB='off', GOTOOLCHAIN='local')
-wt = f'/tmp/wtv-{pid}{X}'
+wt = f'/tmp/wtv-{pid}{X}{os.environ.get("SEED_ROUND", "")}'
 def sh(cmd, cwd=None, timeout=1800):
     p = subprocess.run(cmd, shell=True, cwd=cwd, env=env, capture_output=True, text=True, timeout=timeout)
     return p.returncode, (p.stdout + p.stderr)
@@ -70,7 +71,7 @@ if ok:
                     meta['checks'][c].setdefault('replays', []).append({k: (v if k != 'trace' else v[-5:]) for k, v in b.items() if k in ('kind', 'case', 'spec_clause_failed', 'implementation', 'model', 'no_longer_checks')})
     finally:
         sh('git -C /repo checkout -- . && git -C /repo clean -fdq')
-out = f'/verif/seeded/{pid}-{X}'
+out = f'/verif/seeded/{pid}-{X}{rnd}'
 os.makedirs(out, exist_ok=True)
 shutil.copy(patch, f'{out}/patch.diff')
 for d in demos:
